@@ -411,6 +411,7 @@ pub fn run_resume(report: &Report, tier: Tier, mem0: &[u8], atoms: &[Call]) {
     }
     report.set_extra("resume_context_cases", json!(special.len()));
     special.par_iter().for_each(|(cx, s, a)| check_script_r(report, s, a, cx, mem0, true));
+    special.par_iter().for_each(|(cx, s, a)| budget_sweep(report, s, a, cx, mem0, quick));
     // ---- call depth ---------------------------------------------------------------------------
     let progs = nesting_programs(!quick);
     let mut jobs: Vec<(Nesting, Kind)> = vec![];
